@@ -353,8 +353,8 @@ class FresnelPropagator(Propagator):
     to :math:`(k_x, k_y)`, and the propagator term is given by
 
     .. math ::
-        D = \exp \left( -j \frac{z}{2 k_0}\left(k_x^2 + k_y^2 \right)
-        \right) \;,
+        D = e^{j k_0 z} \exp \left( -j \frac{z}{2 k_0}\left(k_x^2 + k_y^2
+        \right) \right) \;,
 
     where :math:`(k_x, k_y)` are the :math:`x` and :math:`y` components
     respectively of the wave-vector of the plane wave, and :math:`j` is
